@@ -195,10 +195,17 @@ static int parse_complex(vnacal_load_state_t *vlsp,
 	*result = I;
 	break;
     case 5:	/* number j */
-	*result = value1 * I;
-	break;
+	value2 = value1;
+	value1 = 0.0;
+	/*FALLTHROUGH*/
     case 6:	/* number number j */
-	*result = value1 + value2 * I;
+	/*
+	 * Store the parts directly: value1 + value2 * I would lose
+	 * the sign of a negative zero real part and turn an infinite
+	 * imaginary part into a NaN real part.
+	 */
+	((double *)result)[0] = value1;
+	((double *)result)[1] = value2;
 	break;
     case 12:	/* +j */
 	*result = I;
